@@ -276,6 +276,7 @@ class C14(Check):
         self.stats = {"kinds": {"T": 0, "P": 0}, "t_rows_hist": {}, "t_platforms_hist": {}, "t_schedules_run": 0,
                       "p_schedules_run": 0, "p_files_hist": {}, "p_platforms_hist": {}, "float_values_compared_bit_exact": 0}
         self._pn = 0
+        self._first_p = None
 
     # ---------------------------------------------------------------- generation
     def gen_table(self, big=False):
@@ -569,6 +570,8 @@ class C14(Check):
             return self._pcache[k]
         self._pn += 1
         tag = f"c{self._pn}"
+        if self._first_p is None:
+            self._first_p = case
         with ThreadPoolExecutor(JOBS) as ex:
             raws = list(ex.map(lambda i: self.run_schedule(case, i, tag), range(len(case["sched"]))))
         self.stats["p_schedules_run"] += len(raws)
@@ -819,6 +822,39 @@ class C14(Check):
             n = len(rs)
             return {"k": "T", "rows": rs, "perms": [list(reversed(range(n))), list(range(1, n)) + [0] if n else []]}
         return case
+
+    def self_tests(self):
+        """The runner (three tools through runpy in one fresh interpreter) must print what the real
+        command lines print: one P case, baseline schedule, `python -m codebasin ...` three times."""
+        probs = []
+        case = self._first_p
+        if case is None:
+            return probs
+        try:
+            via_runner = self.run_schedule(case, 0, "selftest-r")
+            root = common.scratch() / "c14p" / "selftest-cli" / "s0"
+            db = self.materialise(case, root, 0, 0)
+            env = dict(os.environ)
+            env["PYTHONPATH"] = f"{SITE}:{common.REPO}"
+            env["PYTHONHASHSEED"] = case["sched"][0][0]
+            env.pop("C14_SHUFFLE", None)
+            outs = {}
+            for name, args in (("main", ["-m", "codebasin", "a.toml"]), ("tree", ["-m", "codebasin.tree", "a.toml"]),
+                               ("cov", ["-m", "codebasin.coverage", "compute", "-S", ".", "-o", "coverage.json", db])):
+                p = subprocess.run([PY, "-W", "ignore"] + args, cwd=str(root), capture_output=True, text=True, env=env, timeout=300)
+                outs[name] = p.stdout.replace(str(root), "<ROOT>")
+            cov = (root / "coverage.json").read_text() if (root / "coverage.json").exists() else None
+            shutil.rmtree(root, ignore_errors=True)
+            if outs["main"] != via_runner["main"]:
+                probs.append("runner and `python -m codebasin` print different text")
+            if outs["tree"] != via_runner["tree"]:
+                probs.append("runner and `python -m codebasin.tree` print different text")
+            if cov != via_runner["covjson"]:
+                probs.append("runner and `python -m codebasin.coverage` write different coverage.json")
+            self.stats["runner_validated_against_real_cli"] = not probs
+        except Exception as e:  # noqa
+            probs.append(f"runner self-test could not run: {type(e).__name__} {e}")
+        return probs
 
     def extra_coverage(self):
         return {"schedules": {"hash_seeds": self.HASHSEEDS, "per_P_case": 4,
